@@ -556,11 +556,84 @@ def _guarded(fn, item):
     return fn(item)
 
 
-def pmap(fn, items, initfn=None, procs=NCPU, chunksize=None, aux=None):
-    """Map fn over items in a pool of fresh processes (each imports the implementation itself)."""
+def _batch_killable(fn, on_timeout, budget, batch):
+    """Run fn over the items of a batch in a forked child of this worker that streams its results back; a case that does
+    not answer within its budget is killed with the child (compiled loops ignore Python-level alarms), gets the record
+    on_timeout(item), and the rest of the batch continues in a new child.  One fork per batch, not per case."""
+    import pickle
+    import select
+    import struct
+    if _INIT_ERR:
+        raise MachineryError("worker initialisation failed: " + _INIT_ERR[0])
+    results = []
+    i = 0
+    while i < len(batch):
+        r, w = os.pipe()
+        pid = os.fork()
+        if pid == 0:
+            code = 0
+            try:
+                os.close(r)
+                with os.fdopen(w, "wb") as f:
+                    for item in batch[i:]:
+                        data = pickle.dumps(fn(item))
+                        f.write(struct.pack("<I", len(data)))
+                        f.write(data)
+                        f.flush()
+            except BaseException:       # noqa: BLE001
+                code = 1
+            finally:
+                os._exit(code)
+        os.close(w)
+        buf = b""
+        killed = False
+        with os.fdopen(r, "rb") as f:
+            while i < len(batch):
+                # first expiry in this worker: the full budget; afterwards the tree is known to hang
+                deadline = time.time() + (budget * WATCHDOG_SCALE if not _expired[0] else max(10.0, budget))
+                got = None
+                while got is None:
+                    if len(buf) >= 4:
+                        n = struct.unpack("<I", buf[:4])[0]
+                        if len(buf) >= 4 + n:
+                            got = pickle.loads(buf[4:4 + n])
+                            buf = buf[4 + n:]
+                            break
+                    left = deadline - time.time()
+                    if left <= 0 or not select.select([f], [], [], left)[0]:
+                        break
+                    b = os.read(f.fileno(), 1 << 16)
+                    if not b:
+                        os.waitpid(pid, 0)
+                        raise MachineryError("an isolated batch died before answering every case")
+                    buf += b
+                if got is None:
+                    os.kill(pid, signal.SIGKILL)
+                    os.waitpid(pid, 0)
+                    _expired[0] += 1
+                    results.append(on_timeout(batch[i]))
+                    i += 1
+                    killed = True
+                    break
+                results.append(got)
+                i += 1
+        if not killed:
+            os.waitpid(pid, 0)
+    return results
+
+
+def pmap(fn, items, initfn=None, procs=NCPU, chunksize=None, aux=None, killable=None):
+    """Map fn over items in a pool of fresh processes (each imports the implementation itself).
+    killable = (on_timeout, budget_seconds): see _batch_killable."""
     items = list(items)
     if not items:
         return []
+    if killable:
+        size = 40
+        batches = [items[k:k + size] for k in range(0, len(items), size)]
+        out = pmap(functools.partial(_batch_killable, fn, killable[0], killable[1]), batches, initfn=initfn, procs=procs,
+                   chunksize=1, aux=aux)
+        return [r for b in out for r in b]
     procs = max(1, min(procs, len(items)))
     if chunksize is None:
         chunksize = max(1, min(200, len(items) // (procs * 8) or 1))
@@ -580,10 +653,15 @@ class Timeout(Exception):
     pass
 
 
-def isolated(fn, arg, timeout=600):
+_expired = [0]
+
+
+def isolated(fn, arg, timeout=600, on_timeout=None):
     """Run fn(arg) in a forked child of this worker and return its (picklable) result: process-wide state left behind
-    by the implementation (class attributes, module globals) cannot leak from one case into the next one.  A child
-    that dies or hangs is a machinery failure."""
+    by the implementation (class attributes, module globals) cannot leak from one case into the next one, and a child
+    stuck in compiled code (which no Python-level alarm can interrupt) can be killed.  A child that dies is a machinery
+    failure; one that does not answer in time as well, unless on_timeout(arg) provides the record to use instead.
+    After a first expiry in this worker the budget of the next ones is divided by six (the tree is known to hang)."""
     import pickle
     import select
     r, w = os.pipe()
@@ -601,13 +679,16 @@ def isolated(fn, arg, timeout=600):
             os._exit(code)
     os.close(w)
     chunks = []
-    deadline = time.time() + timeout * WATCHDOG_SCALE
+    deadline = time.time() + timeout * WATCHDOG_SCALE / (6 if _expired[0] else 1)
     with os.fdopen(r, "rb") as f:
         while True:
             left = deadline - time.time()
             if left <= 0 or not select.select([f], [], [], left)[0]:
                 os.kill(pid, signal.SIGKILL)
                 os.waitpid(pid, 0)
+                _expired[0] += 1
+                if on_timeout is not None:
+                    return on_timeout(arg)
                 raise MachineryError("an isolated case did not finish")
             b = os.read(f.fileno(), 1 << 16)
             if not b:
